@@ -1,0 +1,17 @@
+//go:build verif
+
+package executor
+
+// Verification hooks (build tag "verif" only; add-only): exported wrappers around the unexported message
+// delivery walk and the send/ack functions the executor installs into the firebolt context.
+
+import (
+	"github.com/digitalocean/firebolt/fbcontext"
+	"github.com/digitalocean/firebolt/message"
+)
+
+// DeliverMessageV exposes deliverMessage.
+func (e *Executor) DeliverMessageV(msg message.Message) []error { return e.deliverMessage(msg) }
+
+// ConfigureMessagingV installs the executor's send/ack functions into ctx exactly as initMessagingKafka does.
+func ConfigureMessagingV(ctx fbcontext.FBContext) { ctx.ConfigureMessaging(sendMessage, ackMessage) }
